@@ -57,10 +57,10 @@ struct IvHarnessT {
 	INode &node(int i) { return reinterpret_cast<INode *>(w.nodes)[i]; }
 
 	void reset() {
-		memset(&w, 0, sizeof w);
-		new(w.tree) ITree();
+		memset(&w, 0xA5, sizeof w);   // nodes and trees are built in storage that is not all-zero, and default-initialised
+		new(w.tree) ITree;
 		for(int i = 0; i < n; i++) {
-			INode *p = new(&node(i)) INode();
+			INode *p = new(&node(i)) INode;
 			p->lo = ivs[i].first; p->hi = ivs[i].second; p->id = i;
 		}
 		in_tree = 0;
@@ -89,8 +89,8 @@ struct IvHarnessT {
 			if(hk.parent || hk.left || hk.right || hk.predecessor || hk.successor)
 				throw Violation{"C07", "removed-hook-not-reset", "links of removed node are not null"};
 			if(fresh) { // the caller re-creates the node object before using it again
-				memset(&node(i), 0, sizeof(INode));
-				INode *p = new(&node(i)) INode();
+				memset(&node(i), 0xA5, sizeof(INode));
+				INode *p = new(&node(i)) INode;
 				p->lo = ivs[i].first; p->hi = ivs[i].second; p->id = i;
 			}
 		}
